@@ -615,3 +615,7 @@ def run(chk):
     chk.guard("R09.7", "measured", check_measured, chk, F)
     from . import ctors
     chk.guard("R09.8", "typed-constructors", ctors.check_typed_constructors, chk, F, "R09.8")
+    # the witness size a plan announces is summed from the sizes the asset provider reports for each signature: when the
+    # provider is a Satisfier (the blanket impl) those are the held signatures' real lengths (rule shared with C17)
+    from . import c17
+    chk.guard("R09.9", "provider-sizes", c17.check_satisfier_as_provider, chk, F, "R09.9")
